@@ -403,9 +403,15 @@ def run_unit(seed=None, unit=None, tier="quick", stats=None):
     big = tier == "thorough"
     stop_kind = STOP_KINDS[ptape.draw(len(STOP_KINDS), "stop_kind")]
     incremental = ptape.draw(4, "incr") != 0
-    focus = unit.get("focus") if unit is not None else ("background" if seed[2] % 5 == 2 else None)
+    focus = unit.get("focus") if unit is not None else (
+        "background" if seed[2] % 5 == 2 else "earlyclose" if seed[2] % 5 == 4 else None)
     if focus == "background":
         stop_kind = "none"
+    if focus == "earlyclose":
+        # early execution, consumer closes before / right after the first payload, and whatever
+        # is in flight at that instant never completes by itself
+        stop_kind = "aclose"
+        incremental = True
     scn = build_scenario(ptape, incremental=incremental, max_requests=2, want_r0=True,
                          allow_hang=stop_kind == "abort", focus=focus,
                          max_depth=5 if big else 4, budget=36 if big else 24)
@@ -427,12 +433,31 @@ def run_unit(seed=None, unit=None, tier="quick", stats=None):
               else Tape((seed, "sched", r)))
         sched_tapes.append(st)
 
-        def factory(sim, tape, i, rs, req, rr, stop_kind=stop_kind):
-            return Stop(sim, tape, i, rs, req, rr, stop_kind)
+        def factory(sim, tape, i, rs, req, rr, stop_kind=stop_kind, focus=focus):
+            stop = Stop(sim, tape, i, rs, req, rr, stop_kind)
+            if focus == "earlyclose":
+                stop.close_after = min(stop.close_after, 1)
+                stop.freeze = True
+            return stop
 
         sim, reqs, results, status, knobs, al, stops = run_incremental(
-            scn, st, stop_factory=factory, lenient=True)
+            scn, st, stop_factory=factory, lenient=True,
+            force_early=True if focus == "earlyclose" else None)
         bump(stats, "counts", "execs", len(reqs))
+        # Work the executor settles in the background is by design left running (and the hook
+        # waits for it). Stalled externals that only such work still waits for are released
+        # now, so that this by-design behaviour is not reported as a leak.
+        for _round in range(6):
+            released = 0
+            for e in sim.externals:
+                if e.hanging and e.is_pending() and e.owner < len(stops):
+                    if _awaited_by_background(e, stops[e.owner], results[e.owner]) is True:
+                        e.hanging = False
+                        released += 1
+            if not released or status != "idle":
+                break
+            bump(stats, "probes", "stalled_externals_released_for_background_work", released)
+            status = sim.resume()
         account(stats, sim, knobs, al, results)
         vs = evaluate(sim, scn, reqs, results, stops, status, knobs, stats)
         if stats is not None:
